@@ -1028,6 +1028,13 @@ def sc_c10(name, seed, mtu, heavy=False):
         s.pipe(1, 2)
         if rng.random() < 0.4:
             s.rx([2], query_large(m, b_mac, 0x11, 0, seq=seq + 100))
+        # whatever else the mapper says to B between the emission and the Query (a repeated Discover - same or new
+        # generation, either service -, an Emit of B's own, Charge, a large-property request) loses no observation
+        for _ in range(rng.choice([0, 0, 1, 2])):
+            s.rx([2], rng.choice([discover(0, m, gen=gen, seq=seq + 300), discover(0, m, gen=rng.randrange(1, 65536), seq=seq + 301),
+                                  discover(1, m, gen=rng.randrange(1, 65536), seq=seq + 302), discover(0, m, gen=0, seq=0),
+                                  emit(m, b_mac, [(1, 0, b_mac, X)], seq=seq + 303), generic(0, OP_CHARGE, m, b_mac, seq=seq + 304),
+                                  query_large(m, b_mac, 0x0E, 0, seq=seq + 305, tos=1), hello(0, PEER, gen, m, m)]))
         if rng.random() < 0.6 or rnd == 0:
             if heavy and rng.random() < 0.5:
                 s.rx([2], query(m, b_mac, seq=seq + 150))      # one partial report, more traffic, then the rest
